@@ -53,6 +53,15 @@ Assoc(t, p, user) == /\ IF user THEN Cardinality(UnitsOf(t)) = 1 /\ UnitsIn(t, p
 AssocFail(t) == Cardinality(UnitsOf(t)) <= 1 /\ UNCHANGED hvars
 Begin(t) == t \notin begun /\ begun' = begun \cup {t} /\ (\A u \in UnitsOf(t) : u \notin queued) /\ UNCHANGED <<live, queued, finished>>
 Finish(t) == t \in begun /\ t \notin finished /\ finished' = finished \cup {t} /\ UNCHANGED <<live, queued, begun>>
+\* a terminated work unit is revived: from the call on it may begin (and finish) once more; if the
+\* call fails because the target pool refused to create a unit, nothing has changed: the unit has
+\* not begun again and is terminated as before
+ReviveCall(t) == /\ t \in finished /\ Cardinality(UnitsOf(t)) <= 1
+                 /\ begun' = begun \ {t} /\ finished' = finished \ {t} /\ UNCHANGED <<live, queued>>
+ReviveRet(t, ok) == /\ Cardinality(UnitsOf(t)) <= 1
+                    /\ IF ok THEN UNCHANGED <<begun, finished>>
+                       ELSE t \notin begun /\ begun' = begun \cup {t} /\ finished' = finished \cup {t}
+                    /\ UNCHANGED <<live, queued>>
 \* a named work unit has been freed: it has no unit any more
 Freed(t) == t \in finished /\ UnitsOf(t) = {} /\ UNCHANGED hvars
 AllReleased == live = <<>> /\ begun = finished
